@@ -63,6 +63,7 @@ OPS = st.one_of(
     st.tuples(st.just("fresh"), st.booleans()),
     st.tuples(st.just("fresh"), st.booleans()),
     st.tuples(st.just("batch")),
+    st.tuples(st.just("loglevel"), st.sampled_from((10, 20, 30))),
 )
 
 
@@ -110,6 +111,7 @@ class Interp:
         self.pruned_then_more = False
         self.seen_pruned = False
         self.step = 0
+        self.shim = None                            # set by the runner of the history (logging shim)
         self.facts = GameFacts(self.pristine)
 
     def build(self, mode):
@@ -185,6 +187,12 @@ class Interp:
             mode = bool(op[1])
             self.note_solve(mode)
             self.compare(mode, self.outcome(lambda: self.build(mode).solve()), what)
+        elif kind == "loglevel":
+            # the process-wide logging level the repository sees (DEBUG=10, INFO=20, WARNING=30): results
+            # must not depend on it
+            if self.shim is not None:
+                self.shim.level = int(op[1])
+            self.v.cls("loglevel_changed")
         elif kind == "batch":
             self.note_solve(True)
             self.note_solve(False)
@@ -240,14 +248,16 @@ def run_history(game, ops, v_hook=None):
         if not facts.stopping:
             it.v.inconclusive = "not a stopping game"
             return it.v
-        if facts.too_slow:
+        if facts.slow:
             it.v.inconclusive = "T>300"
             return it.v
     except OracleError as e:
         it.v.inconclusive = f"oracle: {e}"
         return it.v
     try:
-        with budgeted(facts, extra_modules=(it.r.conditionalrewards,)):
+        with budgeted(facts, extra_modules=(it.r.conditionalrewards,)) as shim:
+            shim.level = 30          # histories start at WARNING; the level only changes through 'loglevel' operations
+            it.shim = shim
             for op in ops:
                 if not it.apply(op):
                     break
@@ -282,7 +292,7 @@ def make_machine(sink):
             self.it = Interp(game)
             facts = self.it.facts
             try:
-                ok = facts.stopping and not facts.too_slow
+                ok = facts.stopping and not facts.slow
             except OracleError:
                 ok = False
             if not ok:
@@ -290,7 +300,8 @@ def make_machine(sink):
                 self.it.v.inconclusive = "T>300 or oracle"
                 return
             self.ctx = budgeted(facts, extra_modules=(self.it.r.conditionalrewards,))
-            self.ctx.__enter__()
+            self.it.shim = self.ctx.__enter__()
+            self.it.shim.level = 30
 
         def _do(self, op):
             if self.dead or self.it is None:
@@ -327,6 +338,10 @@ def make_machine(sink):
         @rule()
         def solve_via_batch(self):
             self._do(("batch",))
+
+        @rule(level=st.sampled_from((10, 20, 30)))
+        def set_log_level(self, level):
+            self._do(("loglevel", level))
 
         @invariant()
         def description_intact(self):
